@@ -117,3 +117,35 @@ theorem C01_select (fs : List MFunc) (env : Env) (f : MFunc) (ms : MSpec) (E : L
       · cases this
 
 end PF.C01
+
+namespace PF.C01
+open PF PF.Map
+
+/-- **Shapes** (`MapSpec.shape`): when a shape is returned it has one entry per output axis; an axis that some input names
+    is external and gets the common size of that axis over the inputs carrying it, every other axis is internal and gets
+    a size from the declared internal shape. -/
+theorem C01_shapes (ms : MSpec) (shapes : List (String × List Nat)) (internal : List (String × List Nat))
+    (s : List Nat) (m : List Bool) (h : mspecShape ms shapes internal = .ok (s, m)) :
+    s.length = ms.outputIndices.length ∧ m.length = ms.outputIndices.length ∧
+    ∀ q (hq : q < ms.outputIndices.length) (hs : q < s.length) (hm : q < m.length),
+      (m[q] = true → commonDim ms ms.outputIndices[q] shapes = .ok (some s[q])) ∧
+      (m[q] = false → commonDim ms ms.outputIndices[q] shapes = .ok none ∧
+        ∃ (ish : List Nat) (j : Nat), alookup internal (ms.outputs.headD default).name = some ish ∧ ish[j]? = some s[q]) := by
+  unfold mspecShape at h
+  simp only [bind, Except.bind] at h
+  split at h
+  · cases h
+  · exact go_spec ms shapes internal _ _ 0 s m h
+
+/-- the shape and mask that `map` hands to a mapped function have the same rank (the hypothesis of `C01_func`) -/
+theorem C01_shapes_rank (ms : MSpec) (shapes : List (String × List Nat)) (internal : List (String × List Nat))
+    (s : List Nat) (m : List Bool) (h : mspecShape ms shapes internal = .ok (s, m)) : s.length = m.length := by
+  obtain ⟨a, b, _⟩ := C01_shapes ms shapes internal s m h
+  rw [a, b]
+
+/-- non-vacuity: `x[i], w[j] -> y[j, k, i]` with an internal axis in the middle -/
+example :
+    (mspecShape ⟨[⟨"x", [some "i"]⟩, ⟨"w", [some "j"]⟩], [⟨"y", [some "j", some "k", some "i"]⟩]⟩
+      [("x", [3]), ("w", [2])] [("y", [4])]).toOption = some ([2, 4, 3], [true, false, true]) := by decide
+
+end PF.C01
